@@ -211,6 +211,7 @@ impl DcpsDomainParticipant {
         publisher_handle: &InstanceHandle,
         data_writer_handle: &InstanceHandle,
         dynamic_data: &DynamicData<'static>,
+        handle: Option<InstanceHandle>,
         timestamp: Time,
         runtime: &impl DdsRuntime,
     ) -> DdsResult<()> {
@@ -238,6 +239,7 @@ impl DcpsDomainParticipant {
 
         data_writer.unregister_w_timestamp(
             dynamic_data,
+            handle,
             &topic.type_support,
             timestamp,
             self.transport.message_writer.as_ref(),
@@ -290,7 +292,7 @@ impl DcpsDomainParticipant {
         Ok(data_writer
             .registered_instance_info
             .iter()
-            .any(|x| x.instance_handle == instance_handle)
+            .any(|x| x.instance_handle == instance_handle && x.registered)
             .then_some(instance_handle))
     }
 
@@ -301,6 +303,7 @@ impl DcpsDomainParticipant {
         publisher_handle: &InstanceHandle,
         data_writer_handle: &InstanceHandle,
         dynamic_data: &DynamicData<'static>,
+        handle: Option<InstanceHandle>,
         timestamp: Time,
         runtime: &impl DdsRuntime,
         reply_sender: OneshotSender<DdsResult<()>>,
@@ -353,6 +356,11 @@ impl DcpsDomainParticipant {
                 return;
             }
         };
+
+        if let Err(e) = data_writer.check_instance_handle(instance_handle, handle) {
+            reply_sender.send(Err(e));
+            return;
+        }
 
         if let HistoryQosPolicyKind::KeepLast(depth) = data_writer.qos.history.kind {
             let smallest_seq_num_instance = data_writer
@@ -428,6 +436,7 @@ impl DcpsDomainParticipant {
         publisher_handle: &InstanceHandle,
         data_writer_handle: &InstanceHandle,
         dynamic_data: &DynamicData<'static>,
+        handle: Option<InstanceHandle>,
         timestamp: Time,
         runtime: &impl DdsRuntime,
     ) -> DdsResult<()> {
@@ -455,6 +464,7 @@ impl DcpsDomainParticipant {
 
         data_writer.dispose_w_timestamp(
             dynamic_data,
+            handle,
             &topic.type_support,
             timestamp,
             self.transport.message_writer.as_ref(),
